@@ -1253,10 +1253,12 @@ fn c01_unit_ipv6() {
 #[kani::stub(super::u16_from_be_slice, u16_from_be_slice_ticking)]
 fn c01_read_name_ptrs_8() {
     const N: usize = 8;
-    let mut bytes: [u8; N] = kani::any();
+    // (constraints are assumptions on the symbolic bytes, not overwrites, so that the concrete
+    // playback values are the buffer itself and can be lifted into a datagram)
+    let bytes: [u8; N] = kani::any();
     let mut i = 0;
     while i < N {
-        bytes[i] = if kani::any() { 0xC0 } else { 0x00 };
+        kani::assume(bytes[i] == 0xC0 || bytes[i] == 0x00);
         kani::assume(bytes[i + 1] < N as u8 && bytes[i + 1] % 2 == 0);
         i += 2;
     }
